@@ -13,6 +13,7 @@ import (
 	"flag"
 	"fmt"
 	"os"
+	"runtime"
 	"sort"
 	"strings"
 	"time"
@@ -370,10 +371,18 @@ func main() {
 	cases := &hutil.CaseFile{Dir: *out, Stem: "cases_sshd", PerFile: 60,
 		Header: "From Coq Require Import Ascii String List Bool Arith ZArith.\nImport ListNotations.\nFrom AM Require Import Lib.Bytes Model.SshdProc Model.SshdCheck.\n",
 		Footer: func(int) string { return "Definition M := Eval vm_compute in mismatches cases.\nPrint M.\n" }}
+	// the lines processed before a failing one, in this process: a failure may depend on what came before
+	// (state kept across lines: pools, caches, counters); replays feed them first
+	var history []caseDesc
 	for i := 0; i < *n; i++ {
 		g, tok, mode := genCase(r, *prop, i)
 		o := runOne(tok, g.Line, mode)
 		desc := caseDesc{Tok: tok, Gen: g, Mode: mode}
+		prev := history
+		history = append(history, desc)
+		if len(history) > 40 {
+			history = history[len(history)-40:]
+		}
 		// correspondence case: always "as if handed over directly" — for framed runs the model is
 		// evaluated on (tok, message), which is exactly what C07 claims
 		c, bad := coqCase(tok, g.Line, mode, o)
@@ -387,7 +396,7 @@ func main() {
 			cases.AddDesc(c, desc)
 		}
 		for _, f := range judge(*prop, desc, o) {
-			sum.FailKey("oracle", f.key, f.what, map[string]any{"case": desc, "observed": o})
+			sum.FailKey("oracle", f.key, f.what, map[string]any{"case": desc, "observed": o, "processed_before": append([]caseDesc{}, prev...)})
 		}
 		sum.Count(tok+"\x00"+g.Line+fmt.Sprint(mode), len(o.Events) > 0)
 		sum.Dist("form_" + g.Form)
@@ -492,8 +501,9 @@ func doReplay(path, prop string) int {
 	var rp struct {
 		Property string `json:"property"`
 		Replay   struct {
-			Case *caseDesc    `json:"case"`
-			Fifo []fifoRecord `json:"fifo_records"`
+			Case   *caseDesc    `json:"case"`
+			Before []caseDesc   `json:"processed_before"`
+			Fifo   []fifoRecord `json:"fifo_records"`
 		} `json:"replay"`
 	}
 	if err := json.Unmarshal(raw, &rp); err == nil && len(rp.Replay.Fifo) > 0 {
@@ -517,6 +527,24 @@ func doReplay(path, prop string) int {
 	d := *rp.Replay.Case
 	o := runOne(d.Tok, d.Gen.Line, d.Mode)
 	fs := judge(prop, d, o)
+	if len(fs) == 0 && len(rp.Replay.Before) > 0 {
+		// not a property of the line alone: feed the lines that were processed before it, then the line again
+		// state shared between lines may live in per-processor caches (sync.Pool) and be dropped by the GC:
+		// a few attempts, the later ones on a single processor
+		for try := 0; try < 8 && len(fs) == 0; try++ {
+			if try == 3 {
+				runtime.GOMAXPROCS(1)
+			}
+			for _, b := range rp.Replay.Before {
+				runOne(b.Tok, b.Gen.Line, b.Mode)
+			}
+			o = runOne(d.Tok, d.Gen.Line, d.Mode)
+			fs = judge(prop, d, o)
+		}
+		if len(fs) > 0 {
+			fmt.Printf("(reproduced only after the %d lines processed before it)\n", len(rp.Replay.Before))
+		}
+	}
 	for _, f := range fs {
 		fmt.Printf("REPRODUCED %s: %s\n", f.key, f.what)
 	}
